@@ -23,10 +23,12 @@ def consts():
     return _consts
 
 
-def fl_op(rng, keys, u, whole=0.08):
+def fl_op(rng, keys, u, whole=0.12):
     r = rng.random()
     if r < whole:
-        op = rng.choice(["clear", "iter", "iter", "reserve", "reserve"])
+        op = rng.choice(["clear", "iter", "iter", "reserve", "reserve", "retain", "retain", "retain_force"])
+        if op in ("retain", "retain_force"):
+            return {"op": op, "f": rng.choice(["even", "odd", "none", "all"]), "keys": [], "n": 0}
         return {"op": op, "n": rng.choice([1, 2, 3, 5, 9, 20])} if op == "reserve" else {"op": op}
     op = rng.choice(["insert", "insert", "insert", "get", "get_key_value", "contains_key", "remove", "remove_entry",
                      "try_insert", "compute", "compute"])
@@ -40,7 +42,7 @@ def fl_op(rng, keys, u, whole=0.08):
     return o
 
 
-def flurry_job(rng, jid):
+def flurry_job(rng, jid, whole=0.12):
     """small tables (2..16 bins), 3..10 keys, identical / colliding / spread hashes; several resize
     generations are crossed with a handful of insertions"""
     u = gen.Uids()
@@ -58,7 +60,7 @@ def flurry_job(rng, jid):
                 if fresh and rng.random() < 0.6:
                     prog.append(gen.ins(fresh.pop(), u))
                 else:
-                    prog.append(fl_op(rng, keys[:26], u, whole=0.0))
+                    prog.append(fl_op(rng, keys[:26], u, whole=whole / 3))
             threads.append(prog)
         return {"id": jid, "cfg": "fl-big32", "kind": "map", "pin": rng.random() < 0.3, "scope": rng.choice(["op", "thread"]),
                 "hasher": gen.table_hasher({}), "cap": 21, "batch": 0, "prefix": prefix, "threads": threads,
@@ -78,7 +80,7 @@ def flurry_job(rng, jid):
     cap = rng.choice([0, 1, 1, 2, 2, 3, 5])
     prefix = [gen.ins(k, u) for k in rng.sample(keys, rng.randint(0, min(3, len(keys))))]
     nt = rng.choice([2, 2, 3, 3, 4])
-    threads = [[fl_op(rng, keys, u) for _ in range(rng.randint(1, 4))] for _ in range(nt)]
+    threads = [[fl_op(rng, keys, u, whole=whole) for _ in range(rng.randint(1, 4))] for _ in range(nt)]
     return {"id": jid, "cfg": "fl-%s-cap%d" % (shape, cap), "kind": "map", "pin": rng.random() < 0.3, "scope": rng.choice(["op", "thread"]),
             "hasher": gen.table_hasher({k: h.get(k, k) for k in range(0, nkeys + 2)}), "cap": cap, "batch": 0, "prefix": prefix, "threads": threads,
             "sched": gen.schedule(rng, nt, 400), "finals": keys, "rec": ["step", "site"], "budget": 200000}
@@ -107,7 +109,9 @@ def _tlc_one(args):
     acc = '"ACCEPT"' in out
     inv = re.findall(r"Invariant (\w+) is violated", out)
     m = re.search(r"(\d+) states generated", out)
-    res = {"id": rec["id"], "accepted": acc and not inv, "invariant": inv[0] if inv else None, "states": int(m.group(1)) if m else 0,
+    tk = re.search(r'<<\s*"TAKEN",\s*\{(.*?)\}\s*>>', out, re.S)
+    cov = {a: 1 for a in re.findall(r'"([^"]+)"', tk.group(1))} if (acc and tk) else {}
+    res = {"id": rec["id"], "cov": cov, "accepted": acc and not inv, "invariant": inv[0] if inv else None, "states": int(m.group(1)) if m else 0,
            "wall": time.time() - t0, "toolerr": ("TIMEOUT" in out) or (not m)}
     if diag:
         ats = re.findall(r'<<"AT", (\d+), <<(.*?)>>>>', out)
@@ -134,12 +138,12 @@ def validate(recs, tag, procs=10):
     return res
 
 
-def leg(pid, tier, seed, verdict, n=None, tag=None):
+def leg(pid, tier, seed, verdict, n=None, tag=None, whole=0.12):
     """Run the step-level conformance leg: returns a coverage dict; rejections become violations of `pid`."""
     rng = random.Random(seed * 7919 + 13)
     n = n or (150 if tier == "quick" else 1500)
     tag = tag or ("fl" + pid.lower())
-    jobs = [flurry_job(rng, "%s-%05d" % (tag, i)) for i in range(n)]
+    jobs = [flurry_job(rng, "%s-%05d" % (tag, i), whole=whole) for i in range(n)]
     res = lib.run_jobs(jobs, tag, procs=8, timeout=1800)
     recs, byid = [], {}
     skipped = crashed = 0
@@ -194,7 +198,21 @@ def leg(pid, tier, seed, verdict, n=None, tag=None):
         verdict.violation(sig, r["id"], {"job": job2, "event": ev, "at": at, "model": r.get("model"), "invariant": r.get("invariant"),
                                          "events_before": p["ev"][max(0, at - 12):at]},
                           "job %s: the recorded execution is not a behaviour of Flurry.tla: %s" % (r["id"], what))
-    return {"runs": len(recs), "accepted": nacc, "rejected": len(out) - nacc, "skipped_out_of_alphabet": skipped, "crashed": crashed, "selftest": selftest,
+    actions = {}
+    for r in out:
+        for a, c in r.get("cov", {}).items():
+            actions[a] = actions.get(a, 0) + c
+    try:
+        src = open(os.path.join(lib.SPEC, "Flurry.tla")).read()
+        step = src[src.index("Step(t) =="):src.index("Next ==")]
+        all_actions = re.findall(r"\\/ (\w+)\(t\)", step)
+    except Exception:
+        all_actions = []
+    labels = {a.split(":")[0] for a in actions}
+    alias = {"Call": "idle", "ClrLoadTable": "LoadTable:clear", "ItNew": "LoadTable:iter", "RsLoadCnt": "LoadTable:reserve"}
+    never = sorted(a for a in all_actions if a not in labels and alias.get(a) not in actions)
+    return {"runs": len(recs), "accepted": nacc, "spec_actions_replayed_in_n_runs": dict(sorted(actions.items())),
+            "spec_actions_never_replayed": never, "rejected": len(out) - nacc, "skipped_out_of_alphabet": skipped, "crashed": crashed, "selftest": selftest,
             "events_replayed": sum(len(p["ev"]) for p in recs), "tlc_states": sum(r["states"] for r in out),
             "event_classes": dict(sorted(classes.items())),
             "resizes_replayed": sum(1 for p in recs for e in p["ev"] if e["c"] == "swap_table"),
